@@ -45,6 +45,11 @@ fn u128_classes() -> impl Strategy<Value = u128> {
         1 => (0u32..128).prop_map(|b| 1u128 << b),
         1 => any::<u64>().prop_map(|x| x as u128),
         1 => (0u32..128).prop_map(|b| u128::MAX >> b),
+        // ids whose hexadecimal text reads like a decimal number (digits 0-9 only), or like a
+        // number in scientific / signed / prefixed notation where a letter digit comes in
+        1 => "[1-9][0-9]{31}".prop_map(|d| u128::from_str_radix(&d, 16).unwrap()),
+        1 => "[0-9]{1,30}".prop_map(|d| u128::from_str_radix(&d, 16).unwrap()),
+        1 => "[0-9]{1,14}e[0-9]{1,14}".prop_map(|d| u128::from_str_radix(&d, 16).unwrap()),
     ]
 }
 fn u64_classes() -> impl Strategy<Value = u64> {
@@ -56,6 +61,9 @@ fn u64_classes() -> impl Strategy<Value = u64> {
         1 => any::<u64>().prop_map(|x| x | (1u64 << 63)),
         1 => (0u32..64).prop_map(|b| 1u64 << b),
         1 => (0u32..64).prop_map(|b| u64::MAX >> b),
+        1 => "[1-9][0-9]{15}".prop_map(|d| u64::from_str_radix(&d, 16).unwrap()),
+        1 => "[0-9]{1,15}".prop_map(|d| u64::from_str_radix(&d, 16).unwrap()),
+        1 => "[0-9]{1,7}e[0-9]{1,7}".prop_map(|d| u64::from_str_radix(&d, 16).unwrap()),
     ]
 }
 
